@@ -208,11 +208,6 @@ func (s *SpokFile) run(stream iostream.IOStream, runner shell.Runner, force bool
 		return nil, fmt.Errorf("Could not load spok cache file at %q: %s", cachePath, err)
 	}
 
-	// Whether or not we want to update the cache after running e.g.
-	// if there were no file dependencies to update or if the task
-	// did not succeed
-	updateCache := true
-
 	for _, taskToRun := range runOrder {
 		// Gather up all the files to be hashed into a single slice
 		var toHash []string
@@ -230,21 +225,10 @@ func (s *SpokFile) run(stream iostream.IOStream, runner shell.Runner, force bool
 
 		s.logger.Debug("Task %s depends on %d files", taskToRun.Name, len(toHash))
 
-		// If the task did not declare any file dependencies, let's not
-		// update the cache, this way it will always run
-		if len(toHash) == 0 {
-			updateCache = false
-		}
-
-		var hasher hash.Hasher
-		if force {
-			hasher = hash.AlwaysRun{}
-		} else {
-			hasher = hash.New()
-		}
-
+		// The digest of the task's dependencies is always calculated, even with force,
+		// so that a successful forced run is recorded against what it actually ran on
 		hashStart := time.Now()
-		currentDigest, err := hasher.Hash(toHash)
+		currentDigest, err := hash.New().Hash(toHash)
 		if err != nil {
 			return nil, err
 		}
@@ -264,35 +248,39 @@ func (s *SpokFile) run(stream iostream.IOStream, runner shell.Runner, force bool
 		skipped := false
 
 		switch {
-		case cachedDigest == "" || currentDigest != cachedDigest:
-			// The digest is either empty or out of date, in which case the action to be taken is the same
-			// update the cache digest and run the task
-			if updateCache {
-				cachedState.Set(taskToRun.Name, currentDigest)
+		case !force && len(toHash) != 0 && cachedDigest != "" && currentDigest == cachedDigest:
+			// This task declares file dependencies, has run successfully before and
+			// its digest has not changed since, therefore we don't need to run it again
+			skipped = true
+
+		default:
+			// The task must run. Forget any recorded digest first and persist that, so the cache
+			// can never claim the task is up to date if this run fails or is interrupted
+			if cachedDigest != "" {
+				cachedState.Set(taskToRun.Name, "")
+				if err := cachedState.Dump(cachePath); err != nil {
+					return nil, err
+				}
 			}
 			result, err = taskToRun.Run(runner, stream, s.Env())
 			if err != nil {
 				return nil, fmt.Errorf("Task %q encountered an error: %w", taskToRun.Name, err)
 			}
 
-		case currentDigest == cachedDigest:
-			// This task has been run before and its digest has not changed, therefore
-			// we don't need to run it again
-			skipped = true
-			updateCache = false
+			// Record the digest as soon as this task has succeeded (tasks without file
+			// dependencies are never recorded so they always run), independently of what
+			// happens to the other tasks in this run
+			if len(toHash) != 0 && result.Ok() {
+				s.logger.Debug("Updating cached state for task %s", taskToRun.Name)
+				cachedState.Set(taskToRun.Name, currentDigest)
+				if err := cachedState.Dump(cachePath); err != nil {
+					return nil, err
+				}
+			}
 		}
 
 		// Gather up all the task results
 		results = append(results, task.Result{CommandResults: result, Task: taskToRun.Name, Skipped: skipped})
-	}
-
-	// Only update the cache if force was not set, the task declares file dependencies
-	// and the task run was successful
-	if !force && updateCache && results.Ok() {
-		s.logger.Debug("Updating cached state")
-		if err := cachedState.Dump(cachePath); err != nil {
-			return nil, err
-		}
 	}
 
 	return results, nil
